@@ -26,6 +26,9 @@
 (*   "BomPerWrite"    each write is encoded on its own by a stateless      *)
 (*                    encoder, so a codec with a signature (utf-16) puts a *)
 (*                    byte-order mark in front of every write              *)
+(*   "TextSinkCodecFilter"  TextConverter drops, also on a TEXT sink, the  *)
+(*                    characters its `codec` argument cannot express (a    *)
+(*                    seeded change; the text sink takes characters)       *)
 (*   "AsciiBypass"    a pure-ASCII piece is written as its ASCII bytes,    *)
 (*                    past the codec's encoder: wrong for codecs that      *)
 (*                    rewrite ASCII characters (utf-7 +, hz ~) or keep a   *)
@@ -40,11 +43,11 @@ CONSTANTS MaxNodes,     \* trees of 1..MaxNodes nodes
           Strings,      \* hostile strings (sequences of DocClasses) put into every document-controlled slot
           Kinds,        \* node kinds the build phase may use
           DevChoices,   \* deviation sets to explore (the intended design is {})
-          ShiftSinks    \* TRUE: the utf-7 / hz / iso2022_jp sinks are carried as well
+          ShiftSinks    \* TRUE: the utf-7 / hz / iso2022_jp sinks are carried as well, and every text-sink codec is tried
 
-VARIABLES T, hs, phase, conv, strip, imgw, dev, i, stack, sub, chars, u8, u16, l1, xs, nw, px
-vars == <<T, hs, phase, conv, strip, imgw, dev, i, stack, sub, chars, u8, u16, l1, xs, nw, px>>
-cfgv == <<hs, conv, strip, imgw, dev>>
+VARIABLES T, hs, phase, conv, strip, imgw, tc, dev, i, stack, sub, chars, u8, u16, l1, xs, nw, px
+vars == <<T, hs, phase, conv, strip, imgw, tc, dev, i, stack, sub, chars, u8, u16, l1, xs, nw, px>>
+cfgv == <<hs, conv, strip, imgw, tc, dev>>
 
 XS0 == [u7 |-> <<>>, hz |-> <<>>, jp |-> <<>>, s7 |-> FALSE, shz |-> FALSE, sjp |-> FALSE]
 Node(k, d, s, f, a) == [k |-> k, d |-> d, s |-> s, f |-> f, a |-> a]
@@ -52,7 +55,7 @@ Blank == <<>>
 
 Init == /\ hs \in Strings
         /\ T = <<Node("page", 0, Blank, Blank, 0)>>
-        /\ phase = "build" /\ conv = "none" /\ strip = FALSE /\ imgw = FALSE /\ dev = {}
+        /\ phase = "build" /\ conv = "none" /\ strip = FALSE /\ imgw = FALSE /\ tc = 0 /\ dev = {}
         /\ i = 0 /\ stack = <<>> /\ sub = 0 /\ chars = <<>> /\ u8 = <<>> /\ u16 = <<>> /\ l1 = <<>> /\ xs = XS0 /\ nw = 0 /\ px = P0
 
 \* ------------------------------------------------------------------ build phase: grow the tree in preorder
@@ -82,7 +85,7 @@ AGrow == /\ phase = "build"
               /\ MayAdd(k, d)
               /\ \/ k # "anno" /\ T' = Append(T, NewNode(k, d))
                  \/ k = "anno" /\ \E w \in {cSP, cLF} : T' = Append(T, Node(k, d, <<w>>, Blank, 0))
-         /\ UNCHANGED <<hs, phase, conv, strip, imgw, dev, i, stack, sub, chars, u8, u16, l1, xs, nw, px>>
+         /\ UNCHANGED <<hs, phase, conv, strip, imgw, tc, dev, i, stack, sub, chars, u8, u16, l1, xs, nw, px>>
 
 HasImage == \E j \in 1..Len(T) : T[j].k = "image"
 AStart == /\ phase = "build" /\ CanClose
@@ -90,6 +93,9 @@ AStart == /\ phase = "build" /\ CanClose
           /\ conv' \in {"text", "xml"} /\ dev' \in DevChoices
           /\ strip' \in (IF conv' = "xml" THEN BOOLEAN ELSE {FALSE})
           /\ imgw' \in (IF conv' = "xml" /\ HasImage THEN BOOLEAN ELSE {FALSE})
+          \* TextConverter takes any `codec` together with a text sink (XMLConverter insists on none)
+          \* (the codec dimensions are explored in the configs with ShiftSinks; elsewhere the default utf-8 is passed)
+          /\ tc' \in (IF conv' # "text" THEN {tNONE} ELSE IF ShiftSinks THEN TextSinkCodecs ELSE {tUTF8})
           /\ sub' = (IF conv' = "xml" THEN 3 ELSE 0)
           /\ UNCHANGED <<T, hs, stack, chars, u8, u16, l1, xs, nw, px>>
 
@@ -103,7 +109,7 @@ ShiftCall(text, e, sh) ==
   ELSE IF "AsciiBypass" \in dev /\ AllAscii(text) THEN [u |-> [q \in 1..Len(text) |-> text[q] + 1000 * e], sh |-> sh]
   ELSE EncShift(text, 1, e, sh)
 Write2(text, btext) ==
-  /\ chars' = chars \o text
+  /\ chars' = chars \o (IF conv = "text" /\ "TextSinkCodecFilter" \in dev THEN SelectSeq(text, LAMBDA c : CharFits(tc, c)) ELSE text)
   /\ u8' = WriteTo(u8, kUTF8, btext) /\ u16' = WriteTo(u16, kUTF16, btext) /\ l1' = WriteTo(l1, kLATIN1, btext)
   /\ IF ShiftSinks
      THEN LET a == ShiftCall(btext, kUTF7, xs.s7)  b == ShiftCall(btext, kHZ, xs.shz)  c == ShiftCall(btext, kISO2022, xs.sjp) IN
@@ -122,10 +128,10 @@ Descend == IF i > N THEN FALSE ELSE IF stack = <<>> THEN TRUE ELSE T[i].d > T[To
 \* write_header: the declaration names the codec on a binary sink and has no encoding pseudo-attribute on a text sink
 ABegin == /\ phase = "run" /\ sub = 3
           /\ sub' = 1 /\ Write2(XmlHeader(FALSE), XmlHeader(TRUE))
-          /\ UNCHANGED <<T, hs, phase, conv, strip, imgw, dev, i, stack, px>>
+          /\ UNCHANGED <<T, hs, phase, conv, strip, imgw, tc, dev, i, stack, px>>
 ABegin2 == /\ phase = "run" /\ sub = 1
            /\ sub' = 0 /\ Write(XmlRootOpen)
-           /\ UNCHANGED <<T, hs, phase, conv, strip, imgw, dev, i, stack, px>>
+           /\ UNCHANGED <<T, hs, phase, conv, strip, imgw, tc, dev, i, stack, px>>
 
 AEnter == /\ phase = "run" /\ sub = 0 /\ Descend
           /\ LET k == T[i].k IN
@@ -141,11 +147,11 @@ AEnter == /\ phase = "run" /\ sub = 0 /\ Descend
                   /\ IF k = "char" THEN stack' = Append(stack, i) /\ sub' = 2
                      ELSE IF k \in Containers THEN stack' = Append(stack, i) /\ UNCHANGED sub
                      ELSE UNCHANGED <<stack, sub>>
-          /\ UNCHANGED <<T, hs, phase, conv, strip, imgw, dev, px>>
+          /\ UNCHANGED <<T, hs, phase, conv, strip, imgw, tc, dev, px>>
 
 ACharText == /\ phase = "run" /\ conv = "xml" /\ sub = 2
              /\ Write(XmlCharText(T[Top].s, strip)) /\ sub' = 0
-             /\ UNCHANGED <<T, hs, phase, conv, strip, imgw, dev, i, stack, px>>
+             /\ UNCHANGED <<T, hs, phase, conv, strip, imgw, tc, dev, i, stack, px>>
 
 AExit == /\ phase = "run" /\ sub = 0 /\ stack # <<>> /\ ~Descend
          /\ stack' = SubSeq(stack, 1, Len(stack) - 1)
@@ -155,12 +161,12 @@ AExit == /\ phase = "run" /\ sub = 0 /\ stack # <<>> /\ ~Descend
                  ELSE IF k = "page" THEN Write(<<cFF>>)
                  ELSE NoWrite
             ELSE Write(XmlClose(k))
-         /\ UNCHANGED <<T, hs, phase, conv, strip, imgw, dev, i, sub, px>>
+         /\ UNCHANGED <<T, hs, phase, conv, strip, imgw, tc, dev, i, sub, px>>
 
 AClose == /\ phase = "run" /\ sub = 0 /\ stack = <<>> /\ i > N
           /\ phase' = "done"
           /\ IF conv = "xml" THEN Write(XmlFooter) /\ px' = ParseXML(chars \o XmlFooter) ELSE NoWrite /\ UNCHANGED px
-          /\ UNCHANGED <<T, hs, conv, strip, imgw, dev, i, stack, sub>>
+          /\ UNCHANGED <<T, hs, conv, strip, imgw, tc, dev, i, stack, sub>>
 
 Next == AGrow \/ AStart \/ ABegin \/ ABegin2 \/ AEnter \/ ACharText \/ AExit \/ AClose
 Spec == Init /\ [][Next]_vars
@@ -198,7 +204,7 @@ StackIsPath == phase = "run" =>
 
 \* terminal states for the replay
 EmitTerminal ==
-  Done => PrintT("@@" \o ToJson([T |-> T, conv |-> conv, strip |-> strip, imgw |-> imgw, dev |-> dev,
+  Done => PrintT("@@" \o ToJson([T |-> T, conv |-> conv, strip |-> strip, imgw |-> imgw, tc |-> tc, dev |-> dev,
                                    chars |-> chars, u8 |-> u8, u16 |-> u16, l1 |-> l1, u7 |-> xs.u7, hz |-> xs.hz, jp |-> xs.jp, nw |-> nw,
                                    ev |-> IF conv = "xml" /\ dev = {} THEN px.ev ELSE <<>>]))
 =============================================================================
